@@ -156,6 +156,20 @@ CHECKS = {
         '1e-5 relative, box of radius 100 for dual function values). The construction inside op._inmatrixform / _aslinearineq is not '
         'modelled: it is judged through its results. Genuine defects found and repaired: see known_findings.json.',
    technique='Lean 4 proof of a reference translation (structural induction) + comparison of op.solve with the emitted program'),
+ 'C14': dict(
+   category='proof',
+   text='Record-level Lean model of the MPS writer and reader (Model/Mps.lean: write = tofile on a flattened LP, read = the meaning the '
+        'fixed format gives to N/L/G/E rows, RHS, RANGES and LO/UP/FX/FR/MI/PL bounds, in the order fromfile builds constraints, with its '
+        'error cases). Theorems for every flattened LP with distinct column labels, distinct row labels and no row named cost: in the written '
+        'file every column is declared in order, every (row, column) and objective coefficient and every right-hand side is found again by '
+        'the reader, all bounds are free and create no constraints, rows have known types and there are no ranges; the range semantics per '
+        'row type. Correspondence: records of real tofile output == write of the flattened LP; real fromfile on generated files == read '
+        '(constraints in order, exception classes); real tofile->fromfile round trips compared by size, status and optimal value.',
+   design_ref='DESIGN.md 5 C14',
+   note='Trusted: Lean kernel, harness (cutting fixed-format lines at the standard columns, flattening and the label rule '
+        'name[:7-len(str(i))]+_+str(i), %7.5E formatting). Character-level layout is checked by the tokenizer, not proved. Known finding: '
+        'distinct names that share an 8-character label.',
+   technique='Lean 4 proof (list induction over a record-level reader/writer model) with model-vs-code correspondence'),
  'C20': dict(
    category='proof',
    text='Lean theorems: the reduced state of a dense matrix rebuilds it (all shapes/typecodes); for every structurally valid sparse matrix the '
